@@ -124,6 +124,12 @@ def _pit_ops(ctx):
         big.append((mx, th))
         big.append((mx + 240 * th, th))
         big.append((mx - 240 * th + 1, th))
+    # dist = 240 * th * k + r: dist / th is ALREADY a multiple of 240 and r = dist % th numbers are left over after the
+    # floor division; the round-up of thread_dist must still cover them (seeded change C17-a: top r entries uninitialised)
+    for th in ((2, 3, 4) if ctx.quick else (2, 3, 4, 5, 7, 8, 16)):
+        k = (th * THRESH) // (240 * th) + 1 + rng.randrange(0, 40)
+        for r in sorted(set((0, 1, th - 1))):
+            big.append((PI_CACHE_LIMIT + 240 * th * k + r - 1, th))
     if ctx.quick:
         big.append((PI_CACHE_LIMIT + 16 * THRESH + 5000, 16))
     else:
@@ -137,7 +143,7 @@ def _pit_ops(ctx):
         seen.add((mx, th))
         hash_ops.append("pithash %d %d" % (mx, th))
         t, td = pit_params(mx, th)
-        qs = set([mx, mx - 1, 30719, 30720])
+        qs = set([mx, mx - 1, 30719, 30720] + [mx - j for j in range(0, th + 2)])
         for tt in range(1, t + 1):
             s = PI_CACHE_LIMIT + td * tt
             qs.update([s - 1, s, s + 1, s + 239, s + 240])
